@@ -224,3 +224,57 @@ h_tzm_find(void)
 #endif
 	WITNESS();
 }
+
+/* (B) an arbitrary file that carries the magic: refused, or looked up
+ * without leaving the image */
+#if !defined SIZE
+# define SIZE	32
+#endif
+
+void
+h_tzm_any(void)
+{
+	ND_ARR(u8, vimg, SIZE ? SIZE : 1);
+	ND_ARR(u8, vq, QLEN ? QLEN : 1);
+	tzmap_t m;
+	const char *got;
+	char *qs;
+
+	vf_size = SIZE;
+	vf_img = malloc(SIZE ? SIZE : 1);
+	qs = malloc(QLEN + 1);
+#if VF_REPLAY
+	if (vf_img == NULL || qs == NULL) {
+		return;
+	}
+#else
+	__CPROVER_assume(vf_img != NULL && qs != NULL);
+#endif
+	ASSUME(SIZE < 4 || (vimg[0] == 'T' && vimg[1] == 'Z' && vimg[2] == 'm' && vimg[3] == '1'));
+	for (unsigned int i = 0; i < SIZE; i++) {
+		vf_img[i] = vimg[i];
+	}
+#if defined HOFF
+	/* the header's offset field: concrete per obligation (the runner enumerates
+	 * fitting, misaligned, zero and oversized values); with a symbolic one every
+	 * access into the map has a symbolic base and the query does not fit */
+	if (SIZE >= 8) {
+		vf_img[4] = (unsigned char)((unsigned int)HOFF >> 24), vf_img[5] = (unsigned char)((unsigned int)HOFF >> 16);
+		vf_img[6] = (unsigned char)((unsigned int)HOFF >> 8), vf_img[7] = (unsigned char)(unsigned int)HOFF;
+	}
+#endif
+	for (unsigned int i = 0; i < QLEN; i++) {
+		ASSUME(vq[i] != 0);
+		qs[i] = (char)vq[i];
+	}
+	qs[QLEN] = '\0';
+	m = tzm_open("map");
+	if (m != NULL) {
+		got = tzm_find(m, qs);
+		if (got != NULL) {
+			/* a zone name inside the image, terminated inside it */
+			CHECK(got >= (const char*)vf_img + 16 && got < (const char*)vf_img + SIZE, "the zone name lies inside the image");
+		}
+	}
+	WITNESS();
+}
